@@ -70,6 +70,9 @@ func init() {
 		"vfChoice": func(e *Exec, fn *ssa.Function, a []Value) Value {
 			name := argStr(a[0])
 			n := e.argInt(a[1], "vfChoice n")
+			if e.x.cfg.Fixed != nil {
+				return e.input(name, 64)
+			}
 			if !e.inputIx[name] {
 				v := e.input(name, 64)
 				return e.ts.Const(64, uint64(e.forkN(v, n, 0)))
@@ -87,6 +90,9 @@ func init() {
 			name := argStr(a[0])
 			lo := e.argInt(a[1], "vfRange lo")
 			hi := e.argInt(a[2], "vfRange hi")
+			if e.x.cfg.Fixed != nil {
+				return e.input(name, 64)
+			}
 			if !e.inputIx[name] {
 				v := e.input(name, 64)
 				return e.ts.Const(64, uint64(int64(lo)+int64(e.forkN(v, hi-lo+1, int64(lo)))))
